@@ -94,7 +94,7 @@ class G(object):
             elif k < 0.9 and o['verbatim'] and allow_verb:
                 out.append({'t': 'verb', 'delim': r.choice('|!+/'), 'body': self.mark() + r.choice(['', ' \\x{}', '%y', ' ``q\'\' --- '])})
             elif k < 0.96 and o['refs'] and allow_ref:
-                out.append({'t': 'ref', 'label': None, 'cmd': r.choice(['ref', 'ref', 'pageref'])})   # bound later
+                out.append({'t': 'ref', 'label': None, 'cmd': r.choice(['ref', 'ref', 'pageref']), 'inmath': bool(o.get('wide_labels')) and r.random() < 0.2})   # bound later
             elif o['index']:
                 out.append({'t': 'index', 'entry': None})
             else:
@@ -254,6 +254,8 @@ class G(object):
             if self.o['labels'] and r.random() < 0.6:
                 node['label'] = self.newlabel('fig' if kind == 'figure' else 'tab')
         node['caption_first'] = r.random() < 0.3
+        if node['caption'] is not None and r.random() < 0.15:
+            node['cap_env'] = r.choice(['center', 'flushleft'])      # the caption stands inside an environment within the float
         return node
 
     def theorem(self, depth):
@@ -403,7 +405,8 @@ def p_inlines(items):
         elif t == 'verb':
             out.append('\\verb%s%s%s' % (n['delim'], n['body'], n['delim']))
         elif t == 'ref':
-            out.append('\\%s{%s}' % (n.get('cmd', 'ref'), n['label']))
+            # (a reference written in mathematics: the name is then read under math-mode category codes, or was tokenized under them)
+            out.append(('$\\%s{%s}$' if n.get('inmath') else '\\%s{%s}') % (n.get('cmd', 'ref'), n['label']))
         elif t == 'index':
             out.append('\\index{%s}' % n['entry'])
         elif t == 'raw':
@@ -460,6 +463,8 @@ def p_blocks(blocks, ind=''):
                 if b.get('label'):
                     cap += '\\label{%s}' % b['label']
                 cap += '\n'
+                if b.get('cap_env'):
+                    cap = '\\begin{%s}\n%s\\end{%s}\n' % (b['cap_env'], cap, b['cap_env'])
             inner = p_blocks(b['c'])
             body = cap + inner if b['caption_first'] else inner + cap
             out.append('\\begin{%s}\n%s\\end{%s}\n' % (b['kind'], body, b['kind']))
